@@ -335,3 +335,148 @@ theorem release_heap (h : Heap Addr) {w : World} (r : C14.Reachable w) (R : Rep 
   rcases ha with ha | ha <;> cases ha
 
 end Tromp.C14Ring
+
+namespace Tromp.C14Ring
+open Tromp Tromp.Ring World
+
+/-! ### third worked instance: an accepted call (`run_actions`: on saturation `this->unlink(); saturated_list.push_back(this)`) -/
+
+theorem bookkeep_nextO (w : World) (o f e : Nat) (x : Exp) (m : Mock) : (w.bookkeep o f e x m).nextO = w.nextO := by
+  unfold bookkeep
+  by_cases hc : x.count + 1 = x.hi
+  · simp only [hc, if_true, setExp, setMock]
+    show (World.retireOwn _ _ _).nextO = _
+    rw [show (World.retireOwn (w.retirePredecessors (Owner.exp e) x.seqs) (Owner.exp e) x.seqs).nextO =
+      (w.retirePredecessors (Owner.exp e) x.seqs).nextO from foldl_setSeqPending_nextO _ _ _]
+    exact foldl_setSeqPending_nextO _ _ _
+  · simp only [hc, if_false, setExp]
+    exact foldl_setSeqPending_nextO _ _ _
+
+theorem erase_of_not_mem_map (l : List Nat) (e : Nat) (h : e ∉ l) : (l.map Addr.exp).erase (Addr.exp e) = l.map Addr.exp :=
+  List.erase_of_not_mem (fun hm => by
+    obtain ⟨k, hk, he⟩ := List.mem_map.mp hm
+    cases he; exact h hk)
+
+/-- **an accepted call, on the ring family**: nothing moves unless the call saturates its expectation; then the
+    expectation is unlinked (from the active list) and pushed to the back of the saturated list. -/
+theorem accepted_call_ring {w : World} (h : WF w) (o f e : Nat) (x : Exp) (m : Mock) (hm : w.mocks o = some m)
+    (hx : w.exps e = some x) (hin : e ∈ m.active f) :
+    ringOf (w.bookkeep o f e x m) =
+      if x.count + 1 = x.hi then ((ringOf w).step (.unlink (Addr.exp e))).step (.pushBack (Addr.sat o f) (Addr.exp e))
+      else ringOf w := by
+  obtain ⟨m', hm', _, hother, hact, hsat⟩ := bookkeep_mock_same w o f e x m hm
+  have hheads : headsOf (w.bookkeep o f e x m) = headsOf w := by
+    refine headsOf_congr (bookkeep_nextO w o f e x m) (fun o' => ?_)
+    by_cases ho : o' = o
+    · subst ho; simp [hm', hm]
+    · rw [bookkeep_mocks_other w o f e x m ho]
+  -- where `e` is and is not
+  have hhome := h.listed_only_at_home e x hx
+  have hnotsat : ∀ o' m0 f', w.mocks o' = some m0 → e ∉ m0.saturated f' := by
+    intro o' m0 f' hm0 hs
+    obtain ⟨y, hy, _, _, _, hl⟩ := h.sat o' m0 f' e hm0 hs
+    obtain ⟨y', hy', _, _, _, hl'⟩ := h.act o m f e hm hin
+    rw [hy] at hy'; cases hy'; rw [hl] at hl'; cases hl'
+  have hnotact : ∀ o' m0 f', w.mocks o' = some m0 → (o' ≠ o ∨ f' ≠ f) → e ∉ m0.active f' := by
+    intro o' m0 f' hm0 hne ha
+    obtain ⟨h1, h2, _⟩ := hhome o' m0 f' hm0 (Or.inl ha)
+    obtain ⟨h3, h4, _⟩ := hhome o m f hm (Or.inl hin)
+    rcases hne with hne | hne
+    · exact hne (h1.trans h3.symm)
+    · exact hne (h2.trans h4.symm)
+  by_cases hc : x.count + 1 = x.hi
+  · simp only [hc, if_true] at hact hsat ⊢
+    simp only [ringOf, Abs.step, Abs.set, hheads]
+    congr 1
+    funext a
+    cases a with
+    | act o' f' =>
+      simp only [listsOf, reduceCtorEq, if_false]
+      by_cases ho : o' = o
+      · subst ho
+        simp only [hm', hm]
+        by_cases hf : f' = f
+        · subst hf; rw [hact]; exact map_exp_filter _ e (h.actNodup o' m f' hm)
+        · rw [(hother f' hf).1]; exact (erase_of_not_mem_map _ e (hnotact o' m f' hm (Or.inr hf))).symm
+      · rw [bookkeep_mocks_other w o f e x m ho]
+        cases hm0 : w.mocks o' with
+        | none => simp
+        | some m0 => exact (erase_of_not_mem_map _ e (hnotact o' m0 f' hm0 (Or.inl ho))).symm
+    | sat o' f' =>
+      simp only [listsOf, Addr.sat.injEq]
+      by_cases ho : o' = o
+      · subst ho
+        simp only [hm', hm]
+        by_cases hf : f' = f
+        · subst hf
+          simp only [and_self, if_true, hsat, List.map_append, List.map_cons, List.map_nil]
+          rw [erase_of_not_mem_map _ e (hnotsat o' m f' hm)]
+        · simp only [hf, and_false, if_false, (hother f' hf).2]
+          exact (erase_of_not_mem_map _ e (hnotsat o' m f' hm)).symm
+      · simp only [ho, false_and, if_false]
+        rw [bookkeep_mocks_other w o f e x m ho]
+        cases hm0 : w.mocks o' with
+        | none => simp
+        | some m0 => exact (erase_of_not_mem_map _ e (hnotsat o' m0 f' hm0)).symm
+    | exp k => simp [listsOf]
+  · simp only [hc, if_false] at hact hsat ⊢
+    simp only [ringOf, hheads]
+    congr 1
+    funext a
+    cases a with
+    | act o' f' =>
+      simp only [listsOf]
+      by_cases ho : o' = o
+      · subst ho; simp only [hm', hm]
+        by_cases hf : f' = f
+        · subst hf; rw [hact]
+        · rw [(hother f' hf).1]
+      · rw [bookkeep_mocks_other w o f e x m ho]
+    | sat o' f' =>
+      simp only [listsOf]
+      by_cases ho : o' = o
+      · subst ho; simp only [hm', hm]
+        by_cases hf : f' = f
+        · subst hf; rw [hsat]
+        · rw [(hother f' hf).2]
+      · rw [bookkeep_mocks_other w o f e x m ho]
+    | exp k => rfl
+
+end Tromp.C14Ring
+
+namespace Tromp.C14Ring
+open Tromp Tromp.Ring World
+
+theorem sat_head_mem (w : World) (o f : Nat) (m : Mock) (hm : w.mocks o = some m) (ho : o < w.nextO) (hf : f < nFns) :
+    Addr.sat o f ∈ headsOf w := by
+  unfold headsOf
+  refine List.mem_flatMap.mpr ⟨o, List.mem_range.mpr ho, ?_⟩
+  rw [hm]
+  exact List.mem_flatMap.mpr ⟨f, List.mem_range.mpr hf, by simp⟩
+
+/-- … and on the heap: after `this->unlink(); saturated_list.push_back(this)` the heap represents the lists of the world
+    after the saturating call. -/
+theorem saturating_call_heap (hp : Heap Addr) {w : World} (h : WF w) (R : Rep hp (ringOf w)) (o f e : Nat) (x : Exp) (m : Mock)
+    (hm : w.mocks o = some m) (hx : w.exps e = some x) (hin : e ∈ m.active f) (hf : f < nFns) (hsat : x.count + 1 = x.hi)
+    (hw' : WF (w.bookkeep o f e x m)) :
+    Rep (pushBack (Addr.sat o f) (Addr.exp e) (unlink (Addr.exp e) hp)) (ringOf (w.bookkeep o f e x m)) := by
+  have hring := accepted_call_ring h o f e x m hm hx hin
+  rw [if_pos hsat] at hring
+  have hnothead : Addr.exp e ∉ headsOf w := by
+    intro hin'
+    obtain ⟨o', f', m', _, ha⟩ := mem_headsOf hin'
+    rcases ha with ha | ha <;> cases ha
+  have R1 : Rep (unlink (Addr.exp e) hp) ((ringOf w).step (.unlink (Addr.exp e))) :=
+    rep_step R (.unlink (Addr.exp e)) hnothead
+  have ho : o < w.nextO := by
+    apply Decidable.byContradiction; intro hge
+    have := h.freshMock o (by omega)
+    rw [hm] at this; cases this
+  have legal2 : ((ringOf w).step (.unlink (Addr.exp e))).legal (.pushBack (Addr.sat o f) (Addr.exp e)) := by
+    refine legal_of_wf_post _ _ ?_ ?_
+    · exact sat_head_mem w o f m hm ho hf
+    · rw [← hring]; exact absWf_of_WF hw'
+  have R2 := rep_step R1 (.pushBack (Addr.sat o f) (Addr.exp e)) legal2
+  rw [hring]; exact R2
+
+end Tromp.C14Ring
